@@ -255,6 +255,17 @@ def _accessor_uses(f):
                 children_idx.add(f'const:{n.slice.value}')
             else:
                 children_idx.add('var')
+    # ctx handed to a helper of the visitor that reads <param>.children[<expr>] (`self._operator_nodes(ctx, n)`)
+    if f.cls is not None:
+        for n in own_nodes(f.node):
+            if isinstance(n, ast.Call) and isinstance(n.func, ast.Attribute) and n.func.attr in f.cls.methods \
+                    and any(isinstance(a, ast.Name) and a.id == ctxn for a in n.args):
+                h = f.cls.methods[n.func.attr]
+                hp = [a.arg for a in h.node.args.posonlyargs + h.node.args.args]
+                for x in ast.walk(h.node):
+                    if isinstance(x, ast.Subscript) and isinstance(x.value, ast.Attribute) and x.value.attr == 'children' \
+                            and isinstance(x.value.value, ast.Name) and x.value.value.id in hp:
+                        children_idx.add('var' if not isinstance(x.slice, ast.Constant) else f'const:{x.slice.value}')
     return uses, children_idx
 
 
